@@ -224,6 +224,13 @@ def lead_spaces(R: Draw, rs, node: dict) -> dict:  # noqa: ANN001
             m3 = toggle(m2, y)
             word = base["x"].strip(" ") or "w"
             three = [{**base, "x": word}, {**base, "m": m2, "x": " two"}, {**base, "m": m3, "x": " three"}]
+            if R.bool(0.4):
+                # a run that is ONLY a space, under marks the next run carries too plus one more that nests inside
+                # (<em> <strong>the</strong></em>): the space is the first text inside the outer mark's element
+                extra = [n for n in sorted(plain_marks, key=lambda n: -rs.rank[n]) if not any(m[0] == n for m in m2)]
+                if extra and m2:
+                    m3 = rm.sorted_by_rank(rs, [*m2, [extra[0], {}]])
+                    three = [{**base, "x": word}, {**base, "m": m2, "x": " "}, {**base, "m": m3, "x": "three"}]
             kids = kids[:i] + three + kids[i + 1 :]
             node = {**node, "c": kids}
         if len([c for c in kids if c["t"] == "text"]) >= 2 and R.bool(0.5):
